@@ -451,6 +451,24 @@ func (c *UConn) clientHandshake(ctx context.Context) (err error) {
 	} else {
 		session = c.HandshakeState.Session
 
+		// The session was checked against the server name when it was loaded. The
+		// name may have changed since (SetSNI after BuildHandshakeState): a session
+		// whose server certificate does not cover the name now in force must not be
+		// resumed, exactly as loadSession would refuse to offer it.
+		if session != nil && !c.config.InsecureSkipVerify && len(session.peerCertificates) > 0 {
+			var dnsName string
+			if len(c.config.InsecureServerNameToVerify) == 0 {
+				dnsName = c.config.ServerName
+			} else if c.config.InsecureServerNameToVerify != "*" {
+				dnsName = c.config.InsecureServerNameToVerify
+			}
+			if len(dnsName) > 0 {
+				if err := session.peerCertificates[0].VerifyHostname(dnsName); err != nil {
+					return &CertificateVerificationError{UnverifiedCertificates: session.peerCertificates, Err: err}
+				}
+			}
+		}
+
 		if c.HandshakeState.State13.EarlySecret != nil && session != nil {
 			cipherSuite := cipherSuiteTLS13ByID(session.cipherSuite)
 			earlySecret = tls13.NewEarlySecretFromSecret(cipherSuite.hash.New, c.HandshakeState.State13.EarlySecret)
